@@ -237,6 +237,7 @@ func (r *Runner) execDecEnum(op *OpSpec, st *Step) *Rec {
 		run(base[:k], "prefix", "prefix "+strconv.Itoa(k)+" of "+strconv.Itoa(len(base)))
 		// and the same prefix as a window of the buffer that holds the whole message (capacity beyond the length)
 		m := &message{fault: "prefix", bytes: base[:k], clean: base, desc: "prefix " + strconv.Itoa(k) + " of " + strconv.Itoa(len(base)) + " with the rest as spare capacity", changed: true}
+		r.st(st).events["truncated-input-as-window-with-spare-capacity"]++
 		one := r.decodeOnce(op, st, sd, m, g.placeWithTail(base[:k], base[k:]), reflect.New(rt))
 		res.Evals += one.Evals
 	}
@@ -348,6 +349,7 @@ func (r *Runner) c06after(op *OpSpec, st *Step, sd *model.StructDef, m *message,
 		// the owner of the new object writes into it (maps, slices, byte slices, scalars): every other live object
 		// must stay what it was
 		model.Scribble(r.C, sd, dst.Elem(), 0)
+		r.st(st).events["owner-writes-into-decoded-object"]++
 		o.snap = model.Digest(model.CanonValue(dst.Elem()))
 		r.c06sweep(st, "owner-write")
 	}
@@ -519,6 +521,8 @@ func (r *Runner) execWrap(op *OpSpec, st *Step) *Rec {
 	}
 	in := r.guardedFor(st.Task, len(lacking)).place(lacking)
 	zero := reflect.Zero(rt)
+	r.st(st).events["wrap-operation"]++
+	r.st(st).events["wrap-repetitions"] += op.Omit
 	for i := 0; i < op.Omit; i++ {
 		dst.Elem().Set(zero)
 		_, err, pc, _ := callDec(in, dst.Interface())
@@ -775,6 +779,7 @@ func (r *Runner) c16repeat(op *OpSpec, st *Step, v *value, arg interface{}, cano
 	if op.VSeed%3 == 0 && r.sharedFor(st) == nil {
 		// and once more after collections and a burst of small allocations: whatever the encoder compares the value
 		// with or reads besides the value (declared defaults, cached per-type data) must still be there
+		r.st(st).events["re-encode-after-collections"]++
 		runtime.GC()
 		runtime.GC()
 		keep := make([][]byte, 0, 4000)
